@@ -2,10 +2,13 @@ package main
 
 import (
 	"bytes"
+	"encoding/base64"
 	"encoding/binary"
 	"encoding/hex"
 	"flag"
 	"fmt"
+	"github.com/jcmturner/gokrb5/v8/client"
+	"github.com/jcmturner/gokrb5/v8/service"
 	"log"
 	"os"
 	"regexp"
@@ -228,6 +231,31 @@ func c04entries() []c04entry {
 		}
 		c.GetEntries()
 		return nil
+	})
+	// ---- HTTP basic authentication: the bytes are the decoded credentials of an "Authorization: Basic" header (the harness encodes
+	// them; corruptions act on the decoded form so that they are not all absorbed by the base64 decoder); "accepted" = the header was
+	// taken apart and the log-in was attempted (no KDC is configured, so the log-in itself fails at once)
+	basicCfg, _ := config.NewFromString("[libdefaults]\n  default_realm = R.TEST\n  dns_lookup_kdc = false\n  dns_lookup_realm = false\n[realms]\n  R.TEST = {\n    kdc = 127.0.0.1:1\n  }\n")
+	basicSettings := NewC04BasicSettings()
+	add("service.KRB5BasicAuthenticator", "bin", func() [][]byte {
+		return [][]byte{[]byte("alice@NOSUCH.TEST:password"), []byte("NOSUCH.TEST\\alice:pass:word"), []byte("alice:pw")}
+	}, func(b []byte) error {
+		a := service.NewKRB5BasicAuthenticator(base64.StdEncoding.EncodeToString(b), basicCfg, basicSettings, client.NewSettings())
+		_, _, err := a.Authenticate()
+		if err != nil && strings.Contains(err.Error(), "error with user credentials during login") {
+			return nil
+		}
+		return err
+	})
+	add("service.KRB5BasicAuthenticator/header", "text", func() [][]byte {
+		return [][]byte{[]byte(base64.StdEncoding.EncodeToString([]byte("alice@NOSUCH.TEST:password")))}
+	}, func(b []byte) error {
+		a := service.NewKRB5BasicAuthenticator(string(b), basicCfg, basicSettings, client.NewSettings())
+		_, _, err := a.Authenticate()
+		if err != nil && strings.Contains(err.Error(), "error with user credentials during login") {
+			return nil
+		}
+		return err
 	})
 	add("config.NewFromString", "text", func() [][]byte {
 		return [][]byte{[]byte("[libdefaults]\n default_realm = A.B\n ticket_lifetime = 1d2h\n forwardable = yes\n default_tkt_enctypes = aes256-cts rc4-hmac\n[realms]\n A.B = {\n  kdc = k1.a.b:88\n  kdc = k2.a.b*\n  admin_server = k1.a.b\n  auth_to_local_names = {\n   x = y\n  }\n }\n[domain_realm]\n .a.b = A.B\n a.b = A.B\n")}
@@ -596,4 +624,9 @@ func cmdC04(args []string) error {
 	}
 	flush()
 	return nil
+}
+
+// NewC04BasicSettings gives the service settings the basic authenticator is constructed with (never reached: no log-in succeeds)
+func NewC04BasicSettings() *service.Settings {
+	return service.NewSettings(keytab.New())
 }
